@@ -2138,25 +2138,36 @@ func (p *Posix) ListMultipartUploads(_ context.Context, mpu *s3.ListMultipartUpl
 		}, nil
 	}
 
+	// list in (key, upload id) order; a page resumes strictly after the
+	// marker position
 	sort.SliceStable(uploads, func(i, j int) bool {
-		return uploads[i].Key < uploads[j].Key
+		if uploads[i].Key != uploads[j].Key {
+			return uploads[i].Key < uploads[j].Key
+		}
+		return uploads[i].UploadID < uploads[j].UploadID
 	})
 
-	for i := keyMarkerInd + 1; i < len(uploads); i++ {
+	for _, upl := range uploads {
 		if maxUploads == 0 {
 			break
 		}
-		if keyMarker != "" && uploadIDMarker != "" && uploads[i].UploadID < uploadIDMarker {
-			continue
+		if keyMarker != "" {
+			if upl.Key < keyMarker {
+				continue
+			}
+			if upl.Key == keyMarker && (uploadIDMarker == "" || upl.UploadID <= uploadIDMarker) {
+				continue
+			}
 		}
-		if i != len(uploads)-1 && len(resultUpds) == maxUploads {
+		if len(resultUpds) == maxUploads {
+			last := resultUpds[len(resultUpds)-1]
 			return s3response.ListMultipartUploadsResult{
 				Bucket:             bucket,
 				Delimiter:          delimiter,
 				KeyMarker:          keyMarker,
 				MaxUploads:         maxUploads,
-				NextKeyMarker:      resultUpds[i-1].Key,
-				NextUploadIDMarker: resultUpds[i-1].UploadID,
+				NextKeyMarker:      last.Key,
+				NextUploadIDMarker: last.UploadID,
 				IsTruncated:        true,
 				Prefix:             prefix,
 				UploadIDMarker:     uploadIDMarker,
@@ -2164,7 +2175,7 @@ func (p *Posix) ListMultipartUploads(_ context.Context, mpu *s3.ListMultipartUpl
 			}, nil
 		}
 
-		resultUpds = append(resultUpds, uploads[i])
+		resultUpds = append(resultUpds, upl)
 	}
 
 	return s3response.ListMultipartUploadsResult{
